@@ -4,6 +4,7 @@ package c19
 import (
 	"context"
 	"fmt"
+	"os"
 	"reflect"
 	"strings"
 
@@ -79,12 +80,12 @@ func (o opt) included() bool { return o.skip != 1 && o.include != 0 }
 
 // how a directive condition is transported
 const (
-	mLiteral      = iota // @skip(if: true)
-	mRequiredVar         // $v: Boolean!, supplied
-	mDefaultOver         // $v: Boolean = <opposite>, supplied with the intended value (the default must be ignored)
-	mDefaultUsed         // $v: Boolean = <intended>, not supplied
-	mDefaultNull         // $v: Boolean = <intended>, supplied as null
-	mMixed               // site i uses mode 2 + i%3: several defaulted variables in one operation
+	mLiteral     = iota // @skip(if: true)
+	mRequiredVar        // $v: Boolean!, supplied
+	mDefaultOver        // $v: Boolean = <opposite>, supplied with the intended value (the default must be ignored)
+	mDefaultUsed        // $v: Boolean = <intended>, not supplied
+	mDefaultNull        // $v: Boolean = <intended>, supplied as null
+	mMixed              // site i uses mode 2 + i%3: several defaulted variables in one operation
 	nModes
 )
 
@@ -232,6 +233,10 @@ func sigOf(t *template, assign []opt) string {
 type execFn func(text string, vars map[string]interface{}) (interface{}, error)
 
 func enumerate(rp *explore.Report, tier string, prefix string, ts []template, exec execFn, k *int64) {
+	modes := []int{mLiteral, mRequiredVar, mDefaultOver, mDefaultUsed, mDefaultNull, mMixed}
+	if prefix != "" && tier != "thorough" {
+		modes = []int{mLiteral, mRequiredVar, mMixed} // through the gateway the quick tier keeps three of the six transports
+	}
 	nopts := len(opts)
 	for ti := range ts {
 		t := &ts[ti]
@@ -254,7 +259,7 @@ func enumerate(rp *explore.Report, tier string, prefix string, ts []template, ex
 			for _, o := range assign {
 				anyRev = anyRev || o.rev
 			}
-			for byVar := 0; byVar < nModes; byVar++ {
+			for _, byVar := range modes {
 				if anyRev && byVar >= mDefaultOver {
 					continue // the written order of the two directives is varied for literal and required-variable conditions
 				}
@@ -309,6 +314,10 @@ func fedTemplates() []template {
 		{"fed-spread-twice", []*node{f("users", -1, f("id", -1), sp("F", 0)), f("user(id: 1)", -1, f("id", -1), sp("F", 1))},
 			[]fragDef{{"F", "User", []*node{f("email", 2), f("device", -1, f("temp", -1))}}}, 3},
 		{"fed-union", []*node{f("everyone", -1, f("__typename", -1), on("User", 0, f("email", 1), f("id", -1)), on("Admin", 2, f("hiding", -1)))}, nil, 3},
+		// fragments whose type condition is the union itself (they apply to every member), inline and spread twice
+		{"fed-union-name", []*node{f("everyone", -1, f("__typename", -1), on("Everyone", 0, on("User", 1, f("email", -1)), on("Admin", -1, f("hiding", -1))), on("User", 2, f("id", -1)))}, nil, 3},
+		{"fed-union-name-spread", []*node{f("everyone", -1, f("__typename", -1), sp("E", 0), sp("E", 1), on("Admin", 2, f("id", -1)))},
+			[]fragDef{{"E", "Everyone", []*node{on("User", -1, f("email", -1), f("age", -1)), on("Admin", -1, f("hiding", -1))}}}, 3},
 		{"fed-hop", []*node{f("users", -1, f("id", -1), f("device", 0, f("id", -1), f("temp", 1), f("owner", 2, f("email", -1))))}, nil, 3},
 	}
 }
@@ -320,7 +329,7 @@ func runFed(rp *explore.Report, tier string) {
 		a[fl] = []string{"s2", "s1"}[i%2]
 	}
 	var k int64
-	res := rt.Execute(rt.Config{MaxSteps: 50000000, MaxClock: 1000}, func() {
+	res := rt.Execute(rt.Config{MaxSteps: 2000000000, MaxClock: 100000000}, func() {
 		ctx, cancel := rt.WithCancel(context.Background())
 		defer cancel()
 		g, err := fedfix.NewGateway(ctx, d, a, nil)
@@ -344,6 +353,13 @@ func runFed(rp *explore.Report, tier string) {
 			return gqlfix.Norm(r)
 		}, &k)
 	})
+	if os.Getenv("VERIF_DEBUG") != "" {
+		fmt.Fprintf(os.Stderr, "c19/gateway: cases=%d steps=%d clockfires=%d stepcap=%v clockcap=%v threads=%d\n", rp.Cases, res.Steps, res.ClockFires, res.StepCap, res.ClockCap, res.Threads)
+	}
+	if res.StepCap || res.ClockCap {
+		rp.CapsHit["c19/gateway:stepcap"]++
+		rp.Exhaustive = false
+	}
 	if res.Deadlock || len(res.Panics) > 0 {
 		rp.AddViolation(&explore.Violation{Item: "gateway run", Signature: "c19/gateway/blocked-or-panicked", Stable: true,
 			Failures: []explore.Failure{{Clause: "harness", Msg: fmt.Sprintf("deadlock=%v %v panics=%v", res.Deadlock, res.Blocked, res.Panics)}}})
@@ -352,7 +368,7 @@ func runFed(rp *explore.Report, tier string) {
 
 func init() {
 	reg.Register(&reg.Harness{Property: "C19", Name: "c19/gateway", Level: "exploration", Run: runFed,
-		Rule: "the same enumeration through the federation gateway: 5 templates (fields on different services, same-alias selections, a fragment spread twice, union member fragments, a two-hop plan) x 13^3 directive assignments (both written orders of a skip+include pair) x the six condition transports, over a two-service split of the fedfix domain; oracle: gateway(annotated) == gateway(pruned)"})
+		Rule: "the same enumeration through the federation gateway: 7 templates (fields on different services, same-alias selections, a fragment spread twice, union member fragments, fragments on the union's own name inline and spread twice, a two-hop plan) x 13^3 directive assignments (both written orders of a skip+include pair) x the six condition transports (quick: literal, required variable and the mixed defaults), over a two-service split of the fedfix domain; oracle: gateway(annotated) == gateway(pruned)"})
 	reg.Register(&reg.Harness{Property: "C19", Name: "c19/directives", Level: "exploration", Run: run,
 		Rule: "14 query templates (fields, same-alias objects/leaves, inline fragments, one named fragment spread twice in different and in the same selection set, union member fragments incl. the same member twice, spreads under unions, nested fragments, aliases+arguments) x every assignment of {none, skip T/F, include T/F, both in all four combinations and both written orders} to 3 directive sites x condition transport {literal, required variable, variable with a default that the supplied value overrides, default used (variable absent), default used (variable null), a mix of the last three over the sites}; oracle: Execute(annotated) == Execute(textually pruned query); non-trivial = at least one directive present"})
 }
